@@ -4,6 +4,7 @@ INVARIANT NoEarlyWrite
 INVARIANT AttachLast
 INVARIANT FactoryLaw
 INVARIANT Outcome
+INVARIANT ExecRegistryOnly
 INVARIANT SpecCarriesNothing
 INVARIANT NeverReplaced
 INVARIANT ReadBack
